@@ -32,13 +32,16 @@ RULE = ('random ambiguous grammars (<=4 non-terminals, <=3 alternatives of lengt
         '(also overlapping) %ignore terminals, half of them ambiguous at the root between differently shaped start '
         'alternatives (aliases, _rules, ?rules, filtered/kept tokens), inputs with leading/inner/trailing ignored text, '
         'oracle at character level with ignored text allowed before every token and after the last one; '
-        'stacked-corpus stream (fixed, independent of VERIF_SEED): 12 grammars with ambiguity stacked through chains of '
+        'stacked-corpus stream (fixed, independent of VERIF_SEED): 18 grammars with ambiguity stacked through chains of '
         'inlined _rules (ambiguous intermediate node over an ambiguous inlined child, 2-3 levels, ?rules, !rules, filtered and '
-        'kept tokens) x 3 lexers x placeholders on/off, same oracle and Coq comparisons; the random generator draws 20% of '
+        'kept tokens, and filtered anonymous tokens / _-named terminals before, between and after an ambiguous inlined symbol, '
+        'so that its index in the expansion differs from its index among the kept children) x 3 lexers x placeholders on/off, '
+        'same oracle and Coq comparisons; the random generator draws 20% of '
         'its acyclic grammars from the same class (gen_chain_grammar); '
         'overlap-corpus stream (fixed) and 20% of the ignore / dyn-families grammars: regexp terminals overlapping the ignored '
         'characters (AS = /a\\s/ next to A = "a", greedy %ignore WS, several blanks): one item carried to a position from '
-        'two origins; '
+        'two origins; and broad terminals that match with or without the ignorable text in front (/[^;]+/, / ?[ab]+/, /\\s*a/): '
+        '"ignore first, then match" and "match including the blank" are two derivations; '
         'dyn-families stream: the same add_family log comparison for the dynamic lexers (with %ignore carry-over) against '
         'Forest/ExplicitDynBuild on recorded regex answers, plus the local-form check of every family over the position '
         'graph of the text; '
@@ -163,6 +166,13 @@ OVERLAP_CORPUS = [
     ('start: _w "b"\n_w: A | AS | A A\nA: "a"\nAS: /a\\s/\nWS: /\\s+/\n%ignore WS\n', ['a  b', 'a a  b', 'a  a  b']),
     ('start: w "b"\nw: A | AD\nA: "a"\nAD: /a-/\n%ignore "-"\n%ignore "--"\n', ['a-b', 'a--b', 'a---b', 'a----b']),
     ('start: w* B\nw: A | AS\nA: "a"\nB: "b"\nAS: /a\\s/\nWS: /\\s+/\n%ignore WS\n', ['a  b', 'a  a  b', '  b']),
+    # a broad terminal that can match with and without the ignorable text in front of it: "ignore first, then match"
+    # and "match including the blank" are two derivations
+    ('start: TEXT ";"\nTEXT: /[^;]+/\n%ignore " "\n', [' foo;', 'foo;', '  foo;', ' f o;', 'foo ;']),
+    ('start: item+\nitem: WORD ";"\nWORD: /[^;]+/\n%ignore " "\n', ['ab; cd;', 'ab;cd;', ' ab;  cd;', 'ab ; cd ;']),
+    ('start: w+\nw: W\nW: / ?[ab]+/\n%ignore " "\n', [' a', 'a b', ' a  b', 'ab a']),
+    ('start: x y\nx: SX\ny: SX | B\nSX: /\\s*a/\nB: "b"\nWS: /\\s+/\n%ignore WS\n', [' a a', 'a  a', '  a b', ' a  a ']),
+    ('start: "<" T ">"\nT: /[^<>]+/\n%ignore " "\n%ignore "-"\n', ['< a>', '<-a >', '< -a->', '<a>']),
 ]
 
 
@@ -181,11 +191,12 @@ def gen_overlap_grammar(rng, lexer):
     for nm in names:
         c = rng.choice('ab')
         up = c.upper()
-        alts = rng.sample([up, up + 'S', 'S' + up, up + ' ' + up, '"%s"' % c], rng.randint(2, 3))
+        alts = rng.sample([up, up + 'S', 'S' + up, up + ' ' + up, '"%s"' % c, 'W' + up, 'Q' + up], rng.randint(2, 3))
         if rng.random() < 0.2:
             alts[0] += ' -> al'
         lines.append('%s%s: %s' % (rng.choice(['', '', '?', '_' if False else '']), nm, ' | '.join(alts)))
-    lines += ['A: "a"', 'B: "b"', 'AS: /a\\s/', 'BS: /b\\s/', 'SA: / a/', 'SB: / b/', 'WS: %s' % ws, '%ignore WS']
+    lines += ['A: "a"', 'B: "b"', 'AS: /a\\s/', 'BS: /b\\s/', 'SA: / a/', 'SB: / b/',
+              'WA: /\\s*a/', 'WB: / ?b+/', 'QA: /[ a]+/', 'QB: /[^a]+/', 'WS: %s' % ws, '%ignore WS']
     return '\n'.join(lines) + '\n'
 
 
@@ -281,6 +292,14 @@ STACKED_CORPUS = [
     ('start: _a\n_a: _b _b\n_b: _c x\n_c: c1 | c2 | c1 c2\nc1: P\nc2: P | P P\nx: P+\nP: "p"\n', ['pppp', 'ppppp']),
     ('?start: _a | z\nz: P+\n_a: _b x\n_b: b1 | b2\n?b1: P+\nb2: P+\n?x: P+\nP: "p"\n', ['pp', 'ppp', 'pppp']),
     ('start: _a\n_a: [Y] _b x\n_b: _c | _e\n_c: c1 | c2\n_e: c1 "p" | "p" c2\nc1: P+\nc2: P+\nx: P*\nP: "p"\nY: "y"\n', ['pp', 'ppp', 'yppp']),
+    # filtered tokens (anonymous, and _-named terminals) before / between / after an ambiguous inlined symbol: the index an
+    # inlined symbol has in the rule's expansion differs from its index among the children that survive token filtering
+    ('start: "(" _v ")"\n_v: a | b\na: X\nb: X\nX: "x"\n', ['(x)']),
+    ('start: "(" "(" _v ")" _v\n_v: a | b\na: X+\nb: X+\nX: "x"\n', ['((x)x', '((xx)x']),
+    ('start: _L _v _R y\n_v: a | b | a b\na: X\nb: X | X X\ny: X*\nX: "x"\n_L: "<"\n_R: ">"\n', ['<x>', '<xx>x', '<xx>']),
+    ('start: k "," _v "," k\nk: X\n_v: _w | b\n_w: a | a a\na: X\nb: X+\nX: "x"\n', ['x,x,x', 'x,xx,x']),
+    ('?start: "(" _v ")" | z\nz: "(" X ")"\n_v: a | b\n?a: X\nb: X\nX: "x"\n', ['(x)']),
+    ('start: r\nr: "[" _v x "]" -> lst\n_v: a | b\na: X+\nb: X+\nx: X*\nX: "x"\n', ['[x]', '[xx]', '[xxx]']),
 ]
 
 
@@ -305,7 +324,9 @@ def gen_chain_grammar(rng, lexer):
             # an inlined child followed by something that can take over part of its text
             nxt = names[lv + 1]
             tail = rng.choice(['x', 'x y', 'x "b"?', 'x [B]', nxt + ' x', 'x2'])
-            alts = ['%s %s' % (nxt, tail)]
+            # filtered tokens before / after the inlined child shift its index among the kept children
+            pre = rng.choice(['', '', '"b" ', '"b" "b" ', '_SEP ', 'B "b" '])
+            alts = ['%s%s %s' % (pre, nxt, tail)]
             if rng.random() < 0.3:
                 alts.append(rng.choice(['b1', 'b1 x']))
         else:
@@ -315,7 +336,7 @@ def gen_chain_grammar(rng, lexer):
     rules += ['b1: %s' % rng.choice(leaf), '%sb2: %s' % (rng.choice(['', '', '?']), rng.choice(leaf)),
               '?q: c1 | c2', 'c1: %s' % rng.choice(leaf), 'c2: %s' % rng.choice(leaf),
               '%sx: %s' % (rng.choice(['', '', '?']), rng.choice(['A+', 'A*', 'A | A A', '"a"+'])),
-              'x2: A+ | b1', 'y: "b" | B', 'A: "a"', 'B: "b"']
+              'x2: A+ | b1', 'y: "b" | B', 'A: "a"', 'B: "b"', '_SEP: "b"']
     return '\n'.join(lines + rules) + '\n'
 
 
@@ -1213,6 +1234,8 @@ def property_verdict(parser, lexer, text, obs, cyclic, mp=True):
         if want and not cyclic:
             return ('missing', 'input rejected but %d derivation(s) exist, e.g. %r' % (len(want), sorted(want)[0]))
         return None
+    if count_expansions(obs['tree']) > 20000:
+        return None        # not examined: the expansion itself would not fit (the oracle bound is far below)
     try:
         got = {freeze(t) for t in py_expand(obs['tree'])}
     except MemoryError:
@@ -1759,7 +1782,8 @@ def coq_icase(parser, text, code, log):
         seen.add(k)
         fams.append('(%s, (%s, %s, %s))' % (label(lb), rule_term[r], opt(l), opt(rt)))
     toks = [tm(t[0]) for t in lexed]
-    return '(%s, %d, %s, %d, %s)' % (L(rules), nt('start'), L(['%d' % t for t in toks]), code, L(fams))
+    return '(%s, %d, %s, %d, %s)' % (L(rules), nt('start'), TL(['%d' % t for t in toks], 'nat'), code,
+                                     TL(fams, 'fam nat'))
 
 
 # ----------------------------------------------------------------------------------------------
@@ -1767,6 +1791,12 @@ def coq_icase(parser, text, code, log):
 # ----------------------------------------------------------------------------------------------
 IMPORTS_D = ('From LV Require Import Cfg.Grammar Earley.Spec Earley.Alg Earley.AlgCheck Earley.Dyn Earley.DynCheck '
              'Forest.ExplicitBuild Forest.ExplicitAlgBuild Forest.ExplicitDynBuild Forest.ExplicitDynCheck.')
+
+
+def TL(items, ty):
+    """a Coq list literal whose type is known also when it is empty (a chunk of cases that all have an empty list in
+    one position would otherwise leave the element type undetermined: a Coq elaboration error, not a disagreement)"""
+    return L(items) if items else '(@nil (%s))' % ty
 
 
 def parse_logged_dyn(parser, text):
@@ -1870,7 +1900,7 @@ def coq_idcase(parser, lexer, text, code, log):
             continue
         seen.add(k)
         fams.append('(%s, (%s, %s, %s))' % (label(lb), rule_term[r], opt(l), opt(rt)))
-    nl = lambda xs: '(' + L(['%d' % x for x in sorted(xs)]) + ')%N'
+    nl = lambda xs: ('(' + L(['%d' % x for x in sorted(xs)]) + ')%N') if xs else '(@nil N)'
     # the position graph of the text, by re.fullmatch on slices (no reference to what the parser or its matcher did)
     import re
     pats = {td.name: re.compile(td.pattern.to_regexp()) for td in parser.terminals}
@@ -1880,5 +1910,5 @@ def coq_idcase(parser, lexer, text, code, log):
     ig = sorted({(i, j) for name in parser.ignore_tokens for i in range(n) for j in range(i + 1, n + 1)
                  if pats[name].fullmatch(text, i, j)})
     return '(%s, %d, %s, %d, %s, %s, %s, %d, %s, %s, %s)' % (
-        L(rules), nt('start'), L(['%d' % x for x in ign]), len(text), B(lexer == 'dynamic_complete'),
-        nl(mt), nl(tt), code, L(fams), L(te), L(['(%d, %d)' % p for p in ig]))
+        L(rules), nt('start'), TL(['%d' % x for x in ign], 'nat'), len(text), B(lexer == 'dynamic_complete'),
+        nl(mt), nl(tt), code, TL(fams, 'dfam'), TL(te, '(nat * nat * nat)'), TL(['(%d, %d)' % p for p in ig], '(nat * nat)'))
